@@ -81,6 +81,19 @@ where
             honest_proof::<CS>(h, &pk, &s, hdr.as_deref(), ph.as_deref(), &msgs, &d, k % 3 != 2);
         }
     }
+    // repeated message VALUES at different positions (all equal; a,t,t,b,t): every subset
+    for pattern in [vec![0usize, 0, 0], vec![0, 1, 1, 2, 1], vec![1, 1], vec![0, 1, 0, 1]] {
+        let vals = rand_msgs(h, 3);
+        let msgs: Vec<Vec<u8>> = pattern.iter().map(|&k| vals[k].clone()).collect();
+        let hdr = rand_header(h);
+        if let Some(s) = sign::<CS>(h, &sk, &pk, hdr.as_deref(), Some(&msgs)).ok() {
+            let sb = s.to_bytes();
+            for (k, d) in subsets(msgs.len()).into_iter().enumerate() {
+                h.stat("C03.repeated_values");
+                honest_proof::<CS>(h, &pk, &sb, hdr.as_deref(), None, &msgs, &d, k % 2 == 0);
+            }
+        }
+    }
     // sampled larger L, unsorted / duplicated index lists, None arguments
     let big: &[usize] = if thorough { &[11, 32, 255, 256, 300] } else { &[11, 40] };
     for &l in big {
@@ -266,6 +279,13 @@ where
                         }
                         pb.extend_from_slice(&c.to_be_bytes());
                         h.stat(&format!("C04.forgery.{}{}{}", an, bn, dn));
+                        // (a) through serde, which never runs the decoder's checks
+                        let raw = RawProof { abar: *abar, bbar: *bbar, d: *dp, e_cap, r1_cap, r3_cap, m_cap: m_cap.clone(), c };
+                        if let Some(v) = proofverify_raw::<CS>(h, &pk, &raw, hdr.as_deref(), ph.as_deref(), None, Some(&dm), None, Some(&d), None) {
+                            let vid = h.last();
+                            h.expect(!v.is_ok(), "C04.forgery_serde", "a proof object assembled from public information alone (serde path) was accepted", &[vid]);
+                        }
+                        // (b) through the octet decoder
                         let dd = dec(h, "proof", &pb);
                         let did = h.last();
                         if dd.is_ok() {
@@ -314,6 +334,21 @@ where
         let pb = p.to_bytes();
         let dm = pick_msgs(&msgs, &d);
         let u = l - d.len();
+        // the serde path yields the same decisions as the octet path
+        let raw = RawProof::from_proof_bytes(&pb);
+        if let Some(v) = proofverify_raw::<CS>(h, &pk, &raw, hdr.as_deref(), ph.as_deref(), None, Some(&dm), None, Some(&d), None) {
+            h.expect(v.is_ok(), "C04.serde_honest", "honest proof rebuilt through serde does not verify", &[h.last()]);
+        }
+        for which in 0..3 {
+            let mut r2 = RawProof::from_proof_bytes(&pb);
+            match which { 0 => r2.abar = G1Projective::IDENTITY, 1 => r2.bbar = G1Projective::IDENTITY, _ => r2.d = G1Projective::IDENTITY }
+            if let Some(v) = proofverify_raw::<CS>(h, &pk, &r2, hdr.as_deref(), ph.as_deref(), None, Some(&dm), None, Some(&d), None) {
+                h.expect(!v.is_ok(), "C04.identity_serde", "proof object with an identity point accepted", &[h.last()]);
+            }
+            if let Some(v) = proofverify_raw::<CS>(h, &pk, &r2, hdr.as_deref(), ph.as_deref(), Some(Some(l)), Some(&dm), None, Some(&d), None) {
+                h.expect(!v.is_ok(), "C04.identity_serde_blind", "proof object with an identity point accepted by blind_proof_verify", &[h.last()]);
+            }
+        }
         // statement edits
         for i in 0..d.len() {
             let mut m = dm.clone();
